@@ -209,7 +209,67 @@ def clause_e(ctx, P):
     ctx.ob("C20e.counter-pairing", f.name, pairs == exp, f.loc(), "each cache counter is fed by its own count function: %s" % pairs)
 
 
+def clause_f(ctx, P):
+    """unrequested data is not kept: (1) the is_for_us scan of handle_response is left early only on a positive
+    membership test (never on the initial assumption), (2) wake-up times are armed only for records the cache kept"""
+    h = P.one("Zeroconf::handle_response")
+    tr = tracer(P, h)
+    loops = h.loops()
+    # (1) the scan loop: the loop that contains the membership tests on service_queriers
+    mem = [b for b, t in h.calls() if name_matches(cname(t), "HashMap::contains_key") and
+           (recv_mentions(P, h, b, t, "service_queriers", "Zeroconf") or recv_mentions(P, h, b, t, "hostname_resolvers", "Zeroconf"))]
+    hr = [b for b in mem if recv_mentions(P, h, b, h.term(b), "hostname_resolvers", "Zeroconf")]
+    heads = [hd for hd, body in loops.items() if hr and all(b in body for b in hr) and any(b in body for b in mem if b not in hr)]
+    ctx.require(bool(heads), "C20f.anchor", h.name + "|is_for_us scan", h.loc(), "loop with the membership tests found")
+    if heads:
+        hd = min(heads, key=lambda x: len(loops[x]))
+        body = loops[hd]
+        pos = guard_edges(P, h, lambda atom, outcome, bb: atom[0] == "call" and name_matches(strip_generics(atom[1]), "HashMap::contains_key") and outcome is True)
+        none_exit = guard_edges(P, h, lambda atom, outcome, bb: bb in body and atom[0] == "variant" and outcome == frozenset(["None"]) and has_call(atom[1], "::next"))
+        exits = [(b, s) for b in body for s in h.succs(b) if s not in body and (b, s) not in none_exit and h.term(s)["k"] not in ("resume", "unreachable")
+                 and not _is_cleanup_edge(h, b, s)]
+        bad = []
+        for (b, s) in exits:
+            # the block that leaves the loop must only be reachable through a positive membership test
+            if (b, s) in pos:
+                continue
+            if not (pos and must_pass_edges(h, b, pos)):
+                bad.append(h.loc(b))
+        ctx.ob("C20f.scan-left-only-on-a-match", h.name, bool(exits) and not bad, h.loc(hd),
+               "%d early exit(s) of the is_for_us scan, each behind contains_key(..) == true" % len(exits) if exits and not bad else
+               "the is_for_us scan can be left early at %s without a positive membership test: the initial `true` then stands and the whole "
+               "message (PTRs of types nobody browses included) is cached" % (bad[:3] or "?"))
+    # (2) pushes onto the timer list handed to add_or_update
+    aou = calls_to(h, "DnsCache::add_or_update")
+    if aou:
+        cb, ct = aou[0]
+        te = tr.operand(ct["args"][3], endpos(h, cb))
+        news = [x for x in strip(te) if x[0] == "call" and strip_generics(x[1]).endswith("Vec::new")]
+        some_edges = guard_edges(P, h, lambda atom, outcome, bb: atom[0] == "variant" and outcome == frozenset(["Some"]) and
+                                 any(x[0] == "call" and x[3] == (h.name, cb) for x in walk(atom[1])))
+        n = 0
+        for b, t in h.calls():
+            if not name_matches(cname(t), "Vec::push") or not news:
+                continue
+            recv = tr.operand(t["args"][0], endpos(h, b))
+            if not any(x == news[0] for x in walk(recv)):
+                continue
+            n += 1
+            ok = bool(some_edges) and must_pass_edges(h, b, some_edges)
+            ctx.ob("C20f.timer-only-for-cached-record", "%s|timers.push#%d" % (h.name, n), ok, h.loc(b),
+                   "a wake-up time is armed only under Some(..) from add_or_update" if ok else
+                   "a wake-up time is pushed for a record whether or not the cache kept it: every unrelated announcement leaves timers "
+                   "behind for the sender's TTL")
+        ctx.floor("C20f.timer-only-for-cached-record", n, 2, "pushes onto the timer list in handle_response")
+
+
+def _is_cleanup_edge(fn, b, s):
+    t = fn.term(b)
+    return t["k"] in ("call", "drop", "assert") and t.get("unwind") == s
+
+
 def run(ctx, P):
+    clause_f(ctx, P)
     clause_a(ctx, P)
     clause_b(ctx, P)
     clause_c(ctx, P)
